@@ -201,6 +201,7 @@ def laws_ops(p):
             yield "setapplies %s %s" % (w, u)
     yield "universe"
     yield "lawset"
+    yield "lawset 2"           # laws with an edge_whitelist naming the vertex and link classes of the pool (documented as not enforced)
     for w in ws:
         yield "universe w=%s" % w
 
